@@ -181,6 +181,28 @@ func c11Judge(cs *core.Case, kinds []int) {
 			hasRR32 = true // cannot be marshalled
 		}
 	}
+	// the SSRC of the leading report now and then reappears as the Source of an SDES chunk (as it
+	// does in real compounds): of a later chunk, of the first, of all of them. Which item is "the
+	// first CNAME item" does not depend on it.
+	if len(cp) > 0 && r.Chance(1, 3) {
+		var lead uint32
+		switch v := cp[0].(type) {
+		case *rtcp.SenderReport:
+			lead = v.SSRC
+		case *rtcp.ReceiverReport:
+			lead = v.SSRC
+		}
+		mode := r.Intn(3)
+		for _, m := range cp {
+			if s, ok := m.(*rtcp.SourceDescription); ok {
+				for i := range s.Chunks {
+					if mode == 2 || (mode == 0 && i == len(s.Chunks)-1) || (mode == 1 && i == 0) {
+						s.Chunks[i].Source = lead
+					}
+				}
+			}
+		}
+	}
 	accepted, wantCNAME := c11Accept(kinds, cnames)
 	seq := strings.Join(names, " ")
 	det := func(extra core.W) func() core.W {
